@@ -15,8 +15,8 @@ pub trait Reader {
 
 //@ extract core/src/ser.rs :: trait Reader::read_empty_bytes
 //@   sigrewrite `fn read_empty_bytes(&mut self, length: usize) -> Result<(), Error>` => `fn read_empty_bytes<R: Reader>(reader: &mut R, length: usize) -> Result<(), Error>`
-//@   rewrite `for _ in 0..length {` => `for i in 0..length`
-//@   rewrite `\t\t\tif self.read_u8()? != 0u8 {` => `\t\t{\n\t\t\tif reader.read_u8()? != 0u8 {`
+//@   rewrite `for _ in 0..length {` => `for i in 0..length {`
+//@   rewrite `self.read_u8()?` => `reader.read_u8()?`
 //@   ensures:
 //@+    r.is_ok() ==> old(reader).stream().len() >= length
 //@+        && (forall|k: int| 0 <= k < length ==> old(reader).stream()[k] == 0)
